@@ -208,7 +208,7 @@ def corpus():
 def generate(rng, tier):
     cases = corpus()
     streams = ["corpus"] * len(cases)
-    n = 360 if tier == "quick" else 3000
+    n = 280 if tier == "quick" else 2400
     for _ in range(n):
         cases.append(gen_case(rng, tier))
         streams.append("random")
